@@ -603,7 +603,7 @@ func c07CheckParsed(e *c07Env, input string, q query.Q) (c07Shape, []c07Finding)
 		// decoding may answer with an error, but must not panic either
 		c07Guard(sh, input, "QFromProto", "", &out, func() error { _, _ = query.QFromProto(proto); return nil })
 	}
-	bareKnown := map[string]bool{}
+	bareKnown := map[string]bool{} // operations that panicked on the bare shard with a recognised message
 	for _, op := range []string{"Search", "List"} {
 		before := len(out)
 		c07Guard(sh, input, op, "bare", &out, func() error {
@@ -623,8 +623,8 @@ func c07CheckParsed(e *c07Env, input string, q query.Q) (c07Shape, []c07Finding)
 			return nil
 		})
 		for _, f := range out[before:] {
-			if f.d.Known != "" && f.d.Known != "C07-type-on-bare-shard" {
-				bareKnown[op+"\x00"+f.d.Known] = true
+			if f.d.Known != "" {
+				bareKnown[op] = true
 			}
 		}
 	}
@@ -648,17 +648,19 @@ func c07CheckParsed(e *c07Env, input string, q query.Q) (c07Shape, []c07Finding)
 			// The sharded searcher recovers the panic and only counts it; the
 			// message is not available here. The crash is attributed to a known
 			// finding only if the very same operation on the bare shard panicked
-			// with that finding's message.
+			// with a recognised message and the query has the shape of a finding
+			// that also exists behind the directory searcher.
 			d := kit.Fail("crash-"+op+"/dir", "%s through the directory searcher of query %s parsed from %q: %d shard(s) crashed", op, q, input, crashes)
-			var ids []string
-			for k := range bareKnown {
-				if strings.HasPrefix(k, op+"\x00") {
-					ids = append(ids, strings.TrimPrefix(k, op+"\x00"))
+			if bareKnown[op] {
+				// Only the first panic is seen on the bare shard (a query can hold
+				// several defects); which finding survives the directory searcher's
+				// type:repo rewriting follows from the shape.
+				switch {
+				case sh.negatedCase || sh.negatedType:
+					d.Known = "C07-negated-scope-directive"
+				case sh.typeFileMatch:
+					d.Known = "C07-type-filematch"
 				}
-			}
-			sort.Strings(ids)
-			if len(ids) > 0 {
-				d.Known = ids[0]
 			}
 			out = append(out, c07Finding{op, "dir", d})
 		}
@@ -905,13 +907,17 @@ func FuzzVerifC07Parse(f *testing.F) {
 		f.Add(s)
 	}
 	rec := kit.Open(f, "C07", "native fuzzing of query strings", "see TestVerif_C07")
+	// Build the corpus here, not inside the fuzz function: the fuzzing engine
+	// kills a worker whose single execution takes more than 10 s, which building
+	// four shards and a directory searcher can on a loaded machine.
+	e, err := c07GetEnv()
+	if err != nil {
+		f.Fatalf("cannot build the C07 corpus: %v", err)
+	}
+	f.Cleanup(c07CloseEnv)
 	f.Fuzz(func(t *testing.T, s string) {
 		if len(s) > 2000 {
 			return
-		}
-		e, err := c07GetEnv()
-		if err != nil {
-			t.Skip(err)
 		}
 		_, _, verdict := c07CheckQueryString(e, nil, s)
 		if err := rec.Judge(c07Case{Kind: "query", Src: "fuzz", Input: kit.Text(s)}, verdict); err != nil {
